@@ -61,6 +61,24 @@ theorem jobOut_core {a b : List Obj} (h : SameCore a b) (j : Job) : jobOut a j =
     simp [hk]
 
 
+theorem SameCore.get_some {a b : List Obj} (h : SameCore a b) {i : Nat} {o : Obj} (ho : a[i]? = some o) :
+    ∃ o', b[i]? = some o' ∧ o'.core = o.core := by
+  have := h.get i
+  rw [ho] at this
+  cases hb : b[i]? with
+  | none => rw [hb] at this; simp at this
+  | some o' => rw [hb] at this; simp at this; exact ⟨o', rfl, this.symm⟩
+
+theorem core_fields {o o' : Obj} (h : o'.core = o.core) :
+    o'.key = o.key ∧ o'.start = o.start ∧ o'.padded = o.padded ∧ o'.proc = o.proc ∧ o'.user = o.user := by
+  have h1 := congrArg Obj.key h
+  have h2 := congrArg Obj.start h
+  have h3 := congrArg Obj.padded h
+  have h4 := congrArg Obj.proc h
+  have h5 := congrArg Obj.user h
+  simp [Obj.core] at h1 h2 h3 h4 h5
+  exact ⟨h1, h2, h3, h4, h5⟩
+
 structure JobFrame (s s' : St) : Prop where
   now : s'.now = s.now
   duration : s'.duration = s.duration
@@ -273,6 +291,79 @@ theorem foldl_runJob (q : List Job) : ∀ (s : St), DispBound s → (∀ i, Job.
           · rw [h]; simp
       · exact hc2 i hi' (by rw [hf1.core.length]; exact hlt)
 
+theorem runJob_dec_keep (s : St) (j : Job) (d : Nat) (h : s.decLast = some d) (hj : j ≠ .release d) :
+    (runJob s j).decLast = some d := by
+  cases j with
+  | decoded i => simp only [runJob]; split <;> exact h
+  | release i =>
+    have hid : i ≠ d := fun e => hj (by rw [e])
+    simp only [runJob]
+    split
+    · rename_i o ho
+      have h1 : (if s.decLast == some i then { s with decLast := none } else s).decLast = some d := by
+        have : (s.decLast == some i) = false := by rw [h]; simpa using Ne.symm hid
+        simp only [this, Bool.false_eq_true, if_false]; exact h
+      generalize (if s.decLast == some i then { s with decLast := none } else s) = s1 at h1
+      have h2 : (if o.bound then resetLast s1 i o else s1).decLast = some d := by
+        split
+        · rw [resetLast_dec]; exact h1
+        · exact h1
+      split <;> exact h2
+    · exact h
+
+theorem foldl_dec_keep (q : List Job) : ∀ (s : St) (d : Nat), s.decLast = some d → Job.release d ∉ q →
+    (q.foldl runJob s).decLast = some d := by
+  induction q with
+  | nil => intro s d h _; exact h
+  | cons j q ih =>
+    intro s d h hn
+    simp only [List.foldl_cons]
+    exact ih _ d (runJob_dec_keep s j d h (fun e => hn (by rw [e]; simp))) (fun hm => hn (List.mem_cons_of_mem _ hm))
+
+theorem runJob_disp_keep (s : St) (j : Job) (x : Nat) (ox : Obj) (hx : s.dispLast = some x) (hox : s.objs[x]? = some ox)
+    (hk : ∀ i oi, j = .release i → s.objs[i]? = some oi → oi.key ≠ ox.key) : (runJob s j).dispLast = some x := by
+  cases j with
+  | decoded i => simp only [runJob]; split <;> exact hx
+  | release i =>
+    simp only [runJob, getObj]
+    cases ho : s.objs[i]? with
+    | none => exact hx
+    | some o =>
+      have hko := hk i o rfl ho
+      simp only []
+      have h1 : (if s.decLast == some i then { s with decLast := none } else s).dispLast = some x ∧
+          (if s.decLast == some i then { s with decLast := none } else s).objs = s.objs := by split <;> exact ⟨hx, rfl⟩
+      generalize (if s.decLast == some i then { s with decLast := none } else s) = s1 at h1
+      have h2 : (if o.bound then resetLast s1 i o else s1).dispLast = some x := by
+        split
+        · unfold resetLast
+          have : s1.dispLast.bind (getObj s1) = some ox := by simp [h1.1, getObj, h1.2, hox]
+          rw [this]
+          have hne : (ox.key == o.key) = false := by simpa using Ne.symm hko
+          simp only [hne, Bool.false_eq_true, if_false, setObj]; exact h1.1
+        · exact h1.1
+      split <;> exact h2
+
+theorem foldl_disp_keep (q : List Job) : ∀ (s : St) (x : Nat) (ox : Obj), s.dispLast = some x → s.objs[x]? = some ox →
+    (∀ i oi, Job.release i ∈ q → s.objs[i]? = some oi → oi.key ≠ ox.key) → (q.foldl runJob s).dispLast = some x := by
+  induction q with
+  | nil => intro s x ox h _ _; exact h
+  | cons j q ih =>
+    intro s x ox hx hox hk
+    simp only [List.foldl_cons]
+    have hf := (runJob_frame s j).1
+    obtain ⟨ox', hox', hcx⟩ : ∃ ox', (runJob s j).objs[x]? = some ox' ∧ ox'.core = ox.core := by
+      have hg := hf.core.get x
+      rw [hox] at hg
+      cases h : (runJob s j).objs[x]? with
+      | none => rw [h] at hg; simp at hg
+      | some o' => rw [h] at hg; simp at hg; exact ⟨o', rfl, hg⟩
+    refine ih _ x ox' (runJob_disp_keep s j x ox hx hox (fun i oi e => hk i oi (by rw [e]; simp))) hox' ?_
+    intro i oi hm hoi
+    obtain ⟨oi', hoi', hci⟩ := hf.core.get_some hoi
+    rw [← (core_fields hci).1, (core_fields hcx).1]
+    exact hk i oi' (List.mem_cons_of_mem _ hm) hoi'
+
 /-- `drain` as a whole -/
 theorem drain_spec (s : St) (hb : DispBound s) (hnr : ∀ i, Job.release i ∈ s.procQ → NotRunning s i) :
     (drain s).now = s.now ∧ (drain s).duration = s.duration ∧ (drain s).style = s.style ∧
@@ -422,6 +513,8 @@ structure DecRes (s : St) (k : Nat) (s1 : St) (c : Nat) (rel : List Nat) : Prop 
           (c = s.objs.length ∧ s1.objs.length = s.objs.length + 1 ∧
             (∃ oc, s1.objs[c]? = some oc ∧ oc.key = k ∧ oc.start = some s.now ∧ oc.padded = false ∧ oc.user = false ∧ oc.bound = false) ∧
             (rel = [] ∨ ∃ d od, rel = [d] ∧ s.decLast = some d ∧ s.objs[d]? = some od ∧ od.key ≠ k))
+  repl : ∀ d od, s.decLast = some d → s.objs[d]? = some od → c = s.objs.length →
+           od.key ≠ k ∧ (rel = [d] ∨ (rel = [] ∧ od.start = none))
 
 theorem newObj_res (s : St) (k t : Nat) :
     (newObj s k t).2 = s.objs.length ∧ (newObj s k t).1 = { s with objs := s.objs ++ [{ key := k, toggle := t, start := some s.now }], decLast := some s.objs.length } :=
@@ -429,33 +522,37 @@ theorem newObj_res (s : St) (k t : Nat) :
 
 theorem decFull_res (s : St) (k t : Nat) (hst : s.style = .sameObject) :
     ∃ rel, DecRes s k (decFull s k t).1 (decFull s k t).2 rel := by
-  have fresh : DecRes s k (newObj s k t).1 (newObj s k t).2 [] := by
-    refine ⟨rfl, rfl, rfl, rfl, rfl, rfl, by simp [newObj], rfl, ?_, Or.inr ⟨rfl, by simp [newObj], ?_, Or.inl rfl⟩⟩
+  have fresh : (∀ d od, s.decLast = some d → s.objs[d]? = some od → od.key ≠ k ∧ od.start = none) →
+      DecRes s k (newObj s k t).1 (newObj s k t).2 [] := by
+    intro hrepl
+    refine ⟨rfl, rfl, rfl, rfl, rfl, rfl, by simp [newObj], rfl, ?_, Or.inr ⟨rfl, by simp [newObj], ?_, Or.inl rfl⟩,
+      fun d od h1 h2 _ => ⟨(hrepl d od h1 h2).1, Or.inr ⟨rfl, (hrepl d od h1 h2).2⟩⟩⟩
     · intro i o h
       have := get_lt h
       simp [newObj, stopped, List.getElem?_append_left this, h]
     · exact ⟨{ key := k, toggle := t, start := some s.now }, by simp [newObj], rfl, rfl, rfl, rfl, rfl⟩
   unfold decFull
   cases hd : s.decLast with
-  | none => exact ⟨[], fresh⟩
+  | none => exact ⟨[], fresh (by intro d od h; rw [hd] at h; cases h)⟩
   | some d =>
     simp only [getObj]
     cases hod : s.objs[d]? with
-    | none => exact ⟨[], fresh⟩
+    | none => exact ⟨[], fresh (by intro d' od' h h'; rw [hd] at h; injection h with h; subst h; rw [hod] at h'; cases h')⟩
     | some od =>
       simp only [hst, beq_self_eq_true, Bool.true_or, Bool.and_true]
       by_cases hk : od.key = k
       · have : (od.key == k) = true := by simpa using hk
         simp only [this, if_true]
-        refine ⟨[], rfl, rfl, rfl, rfl, rfl, rfl, by simp, hd, ?_, Or.inl ⟨hd, rfl, rfl, od, hod, hk⟩⟩
-        intro i o h; simp [stopped, h]
+        refine ⟨[], rfl, rfl, rfl, rfl, rfl, rfl, by simp, hd, ?_, Or.inl ⟨hd, rfl, rfl, od, hod, hk⟩, ?_⟩
+        · intro i o h; simp [stopped, h]
+        · intro d' od' h h' e; rw [hd] at h; injection h with h; subst h; have := get_lt hod; omega
       · have : (od.key == k) = false := by simpa using hk
         simp only [this, Bool.false_eq_true, if_false]
         rw [stopTimer_eq s d od hod]
         have hdl := get_lt hod
         by_cases hs : od.start.isSome = true
         · simp only [hs, if_true]
-          refine ⟨[d], rfl, rfl, rfl, rfl, rfl, rfl, by simp [newObj], by simp [newObj], ?_, Or.inr ⟨by simp [newObj], by simp [newObj], ?_, Or.inr ⟨d, od, rfl, hd, hod, hk⟩⟩⟩
+          refine ⟨[d], rfl, rfl, rfl, rfl, rfl, rfl, by simp [newObj], by simp [newObj], ?_, Or.inr ⟨by simp [newObj], by simp [newObj], ?_, Or.inr ⟨d, od, rfl, hd, hod, hk⟩⟩, ?_⟩
           · intro i o h
             have hi := get_lt h
             simp only [newObj]
@@ -465,8 +562,17 @@ theorem decFull_res (s : St) (k t : Nat) (hst : s.style = .sameObject) :
             · have : i ≠ d := Ne.symm e
               simp [e, stopped, h, this]
           · exact ⟨{ key := k, toggle := t, start := some s.now }, by simp [newObj], rfl, rfl, rfl, rfl, rfl⟩
+          · intro d' od' h h' _
+            rw [hd] at h; injection h with h; subst h; rw [hod] at h'; injection h' with h'; subst h'
+            exact ⟨hk, Or.inl rfl⟩
         · simp only [hs, Bool.false_eq_true, if_false]
-          exact ⟨[], fresh⟩
+          refine ⟨[], fresh ?_⟩
+          intro d' od' h h'
+          rw [hd] at h; injection h with h; subst h; rw [hod] at h'; injection h' with h'; subst h'
+          refine ⟨hk, ?_⟩
+          cases hst' : od.start with
+          | none => rfl
+          | some v => rw [hst'] at hs; simp at hs
 
 
 def KeyAgree (s : St) : Prop :=
@@ -492,6 +598,9 @@ structure Facts (s f : St) (cur : Nat) (rel : List Nat) : Prop where
   oldcur : ∀ o oc, s.objs[cur]? = some o → f.objs[cur]? = some oc → oc.key = o.key
   newo : ∀ o', f.objs[s.objs.length]? = some o' → s.objs.length ≠ cur → o'.user = false
   ka : KeyAgree f
+  dd : f.decLast = some cur
+  sw : ∀ x ox, s.dispLast = some x → x ≠ cur → s.objs[x]? = some ox → x ∈ rel ∨ ox.start = none
+  relkey : ∀ l ol oc, l ∈ rel → f.objs[l]? = some ol → f.objs[cur]? = some oc → ol.key ≠ oc.key
 
 /-- the hypotheses on the state before the event -/
 structure Pre (s : St) : Prop where
@@ -500,6 +609,7 @@ structure Pre (s : St) : Prop where
   ka : KeyAgree s
   st : s.style = .sameObject
   bd : ∀ d, s.decLast = some d → d < s.objs.length
+  dd : ∀ x, s.dispLast = some x → s.decLast = some x
 
 def restart (s : St) (x : Nat) : St := { (startTimer s x 0) with procQ := (startTimer s x 0).procQ ++ [.decoded x] }
 
@@ -513,7 +623,9 @@ theorem restart_facts (s : St) (hp : Pre s) (x : Nat) (ox : Obj) (hx : s.dispLas
   refine { now := rfl, duration := rfl, style := rfl, outs := rfl, procQ := by simp, timerQ := rfl, disp := hx,
            curObj := ⟨{ ox with start := some s.now, padded := true, proc := 0 }, by simp [set_get hox], rfl, rfl, rfl, hbound, hp.du x ox hx hox⟩,
            reach := Or.inr (Or.inr hx), dec := Or.inl rfl, len := by simp, relc := Or.inl rfl,
-           old := ?_, oldcur := ?_, newo := ?_, ka := ?_ }
+           old := ?_, oldcur := ?_, newo := ?_, ka := ?_, dd := hp.dd x hx,
+           sw := (by intro x' ox' h hne; rw [hx] at h; injection h with h; exact absurd h.symm hne),
+           relkey := (by intro l ol oc h; cases h) }
   · intro i o hi hne
     refine ⟨o, ?_, rfl, rfl, rfl, rfl, by simp [stopped]⟩
     simp only [set_get hox, Ne.symm hne, if_false]; exact hi
@@ -549,7 +661,7 @@ def armed (s1 : St) (cur : Nat) (oc1 : Obj) : St :=
 theorem stopped_key (rel : List Nat) (i : Nat) (o : Obj) : (stopped rel i o).key = o.key := by
   unfold stopped; split <;> rfl
 
-theorem facts_armed (s s1 : St) (k c cur : Nat) (rel : List Nat) (oc1 : Obj) (hd : DecRes s k s1 c rel)
+theorem facts_armed (s s1 : St) (k c cur : Nat) (rel : List Nat) (oc1 : Obj) (hp : Pre s) (hd : DecRes s k s1 c rel)
     (hoc : s1.objs[cur]? = some oc1)
     (hcur : cur = c ∨ (s.dispLast = some cur ∧ cur ∉ rel ∧ oc1.key = k)) :
     Facts s (armed s1 cur oc1) cur rel := by
@@ -561,7 +673,8 @@ theorem facts_armed (s s1 : St) (k c cur : Nat) (rel : List Nat) (oc1 : Obj) (hd
   refine { now := hd.now, duration := hd.duration, style := hd.style, outs := hd.outs,
            procQ := by simp [armed, hd.procQ], timerQ := by simp [armed, hd.timerQ], disp := rfl,
            curObj := ⟨armedObj s1.now oc1, by simp [armed, set_get hoc], by simp [armedObj, hd.now], rfl, rfl, rfl, rfl⟩,
-           reach := ?_, dec := ?_, len := ?_, relc := ?_, old := ?_, oldcur := ?_, newo := ?_, ka := ?_ }
+           reach := ?_, dec := ?_, len := ?_, relc := ?_, old := ?_, oldcur := ?_, newo := ?_, ka := ?_,
+           dd := ?_, sw := ?_, relkey := ?_ }
   · rcases hcur with e | ⟨h, _⟩
     · subst e
       rcases hd.cases with ⟨h1, _⟩ | ⟨h1, _⟩
@@ -608,6 +721,52 @@ theorem facts_armed (s s1 : St) (k c cur : Nat) (rel : List Nat) (oc1 : Obj) (hd
       rcases hcur with e' | ⟨_, _, h3⟩
       · exact absurd e' e
       · rw [← hod, ← hol, hc2]; simp [armedObj, h3]
+  · -- the decoder's held code is the delivered one
+    show s1.decLast = some cur
+    rw [hd.dec]
+    rcases hcur with e | ⟨h1, _, h3⟩
+    · rw [e]
+    · have hdc := hp.dd cur h1
+      rcases hd.cases with ⟨h4, _⟩ | ⟨h4, _⟩
+      · rw [hdc] at h4; injection h4 with h4; rw [h4]
+      · exfalso
+        obtain ⟨ob, hob, _⟩ := hp.db cur h1
+        have := (hd.repl cur ob hdc hob h4).1
+        have h5 := hd.old cur ob hob
+        rw [hoc] at h5; injection h5 with h5
+        rw [h5, stopped_key] at h3; exact this h3
+  · intro x ox hx hne hox
+    rcases hcur with e | ⟨h1, _⟩
+    · have hdc := hp.dd x hx
+      rcases hd.cases with ⟨h4, _⟩ | ⟨h4, _⟩
+      · rw [hdc] at h4; injection h4 with h4; exact absurd (h4.trans e.symm) hne
+      · rcases (hd.repl x ox hdc hox h4).2 with h5 | ⟨_, h5⟩
+        · left; rw [h5]; simp
+        · right; exact h5
+    · rw [hx] at h1; injection h1 with h1; exact absurd h1 hne
+  · intro l ol oc' hl hol hoc'
+    have hck : oc'.key = k := by
+      simp only [armed, set_get hoc, if_true] at hoc'; injection hoc' with hoc'
+      rw [← hoc']
+      rcases hcur with e | ⟨_, _, h3⟩
+      · obtain ⟨oc, hc1, hc2⟩ := hckey
+        rw [e, hc1] at hoc; injection hoc with hoc; rw [← hoc]; exact hc2
+      · exact h3
+    rcases hd.cases with ⟨_, _, h3, _⟩ | ⟨_, _, _, h4⟩
+    · rw [h3] at hl; cases hl
+    · rcases h4 with h4 | ⟨d, od, h5, h6, h7, h8⟩
+      · rw [h4] at hl; cases hl
+      · rw [h5] at hl; simp only [List.mem_singleton] at hl; subst hl
+        have hlc : l ≠ cur := by
+          rcases hcur with e | ⟨_, hn, _⟩
+          · have := get_lt h7; rcases hd.cases with ⟨a1, a2, a3, _⟩ | ⟨a1, _⟩
+            · rw [a3] at h5; cases h5
+            · omega
+          · intro e; subst e; exact hn (by rw [h5]; simp)
+        simp only [armed, set_get hoc, Ne.symm hlc, if_false] at hol
+        have := hd.old l od h7
+        rw [hol] at this; injection this with this
+        rw [this, stopped_key, hck]; exact h8
 
 
 theorem St.ext' {a b : St} (h1 : a.now = b.now) (h2 : a.duration = b.duration) (h3 : a.style = b.style)
@@ -706,7 +865,7 @@ theorem frame_facts (s : St) (k t : Nat) (hp : Pre s) :
   | none =>
     obtain ⟨oc, hc1, hc2⟩ := hckey
     rw [frame_none_eq s k t hx oc hc1]
-    refine ⟨_, rel, facts_armed s _ k _ _ rel oc hd hc1 (Or.inl rfl), ?_, ?_⟩
+    refine ⟨_, rel, facts_armed s _ k _ _ rel oc hp hd hc1 (Or.inl rfl), ?_, ?_⟩
     · intro x ox h; cases h
     · intro oc' h; rw [armed_curkey _ _ _ hc1 _ h]; exact hc2
   | some x =>
@@ -721,7 +880,7 @@ theorem frame_facts (s : St) (k t : Nat) (hp : Pre s) :
     · have heq' : (ox.key == k && ox.toggle == t) = false := by simpa using heq
       obtain ⟨cur, oc1, h1, h2, h3, h4⟩ := frame_some_eq s k t hp x ox hx hox heq' rel hd
       rw [h4]
-      refine ⟨cur, rel, facts_armed s _ k _ cur rel oc1 hd h1 h2, ?_, ?_⟩
+      refine ⟨cur, rel, facts_armed s _ k _ cur rel oc1 hp hd h1 h2, ?_, ?_⟩
       · intro x' ox' h hox' hk
         injection h with h; subst h
         rw [hox] at hox'; injection hox' with hox'; subst hox'
@@ -758,6 +917,14 @@ theorem rep_eq (s : St) (hp : Pre s) :
       simp only [Option.bind_some, getObj, hox, had, hx, Option.getD_some, restart]
 
 
+theorem drain_dec_keep (s : St) (d : Nat) (h : s.decLast = some d) (hn : Job.release d ∉ s.procQ) :
+    (drain s).decLast = some d :=
+  foldl_dec_keep s.procQ { s with procQ := [] } d h hn
+
+theorem drain_disp_keep (s : St) (x : Nat) (ox : Obj) (hx : s.dispLast = some x) (hox : s.objs[x]? = some ox)
+    (hk : ∀ i oi, Job.release i ∈ s.procQ → s.objs[i]? = some oi → oi.key ≠ ox.key) : (drain s).dispLast = some x :=
+  foldl_disp_keep s.procQ { s with procQ := [] } x ox hx hox hk
+
 /-! ### the invariant between events -/
 
 def Dead (s : St) (i : Nat) (o : Obj) : Prop :=
@@ -775,6 +942,7 @@ structure Inv (s : St) : Prop where
   deliv : ∀ i o, s.objs[i]? = some o → o.user = true → Out.decoded i o.key ∈ s.outs
   relafter : ∀ i k, Out.released i k ∈ s.outs → Out.decoded i k ∈ s.outs
   delivu : ∀ i k, Out.decoded i k ∈ s.outs → ∃ o, s.objs[i]? = some o ∧ o.user = true ∧ o.key = k
+  armedq : ∀ i ∈ s.timerQ, ∀ o, s.objs[i]? = some o → o.start ≠ none → s.dispLast = some i
 
 theorem relCount_append (a b : List Out) (i : Nat) : relCount (a ++ b) i = relCount a i + relCount b i := by
   simp [relCount, List.countP_append]
@@ -795,23 +963,6 @@ theorem relCount_decoded (objs : List Obj) (c i : Nat) : relCount (jobOut objs (
   simp only [jobOut]
   cases objs[c]? <;> simp [relCount, isRel]
 
-theorem SameCore.get_some {a b : List Obj} (h : SameCore a b) {i : Nat} {o : Obj} (ho : a[i]? = some o) :
-    ∃ o', b[i]? = some o' ∧ o'.core = o.core := by
-  have := h.get i
-  rw [ho] at this
-  cases hb : b[i]? with
-  | none => rw [hb] at this; simp at this
-  | some o' => rw [hb] at this; simp at this; exact ⟨o', rfl, this.symm⟩
-
-theorem core_fields {o o' : Obj} (h : o'.core = o.core) :
-    o'.key = o.key ∧ o'.start = o.start ∧ o'.padded = o.padded ∧ o'.proc = o.proc ∧ o'.user = o.user := by
-  have h1 := congrArg Obj.key h
-  have h2 := congrArg Obj.start h
-  have h3 := congrArg Obj.padded h
-  have h4 := congrArg Obj.proc h
-  have h5 := congrArg Obj.user h
-  simp [Obj.core] at h1 h2 h3 h4 h5
-  exact ⟨h1, h2, h3, h4, h5⟩
 
 
 theorem facts_drain (s f : St) (cur : Nat) (rel : List Nat) (hi : Inv s) (hf : Facts s f cur rel) :
@@ -931,8 +1082,52 @@ theorem inv_after (s f : St) (cur : Nat) (rel : List Nat) (hi : Inv s) (hf : Fac
     · have := get_lt ho; omega
     · exact hd1 (e ▸ r)
     · exact hd2 (e ▸ r)
-  refine { pq := hpq, pre := { db := hdb, du := ?_, ka := ?_, st := by rw [hsty, hf.style]; exact hi.pre.st, bd := ?_ },
-           tq := ?_, nd := ?_, once := ?_, beyond := ?_, live := ?_, deliv := ?_, relafter := ?_, delivu := ?_ }
+  have hcurrel : Job.release cur ∉ f.procQ := by
+    rw [hq]; intro h
+    simp only [List.mem_append, List.mem_map, List.mem_singleton] at h
+    rcases h with ⟨a, ha, e⟩ | e
+    · injection e with e; subst e; exact (hrelmem a ha).2.1 rfl
+    · cases e
+  have hdd : ∀ x, (drain f).dispLast = some x → (drain f).decLast = some x := by
+    intro x hx
+    have := hdispg x hx; subst this
+    exact drain_dec_keep f x hf.dd hcurrel
+  have harm : ∀ i ∈ (drain f).timerQ, ∀ o, (drain f).objs[i]? = some o → o.start ≠ none → (drain f).dispLast = some i := by
+    intro i hmem og hog hst
+    obtain ⟨ofo, hof, hcf⟩ := hback i og hog
+    by_cases e : i = cur
+    · subst e
+      refine drain_disp_keep f i occ hf.disp hocc ?_
+      intro l ol hl hol
+      rw [hq] at hl
+      have hlr : l ∈ rel := by
+        simp only [List.mem_append, List.mem_map, List.mem_singleton] at hl
+        rcases hl with ⟨a, ha, e⟩ | e
+        · injection e with e; subst e; exact ha
+        · cases e
+      exact hf.relkey l ol occ hlr hol hocc
+    · exfalso
+      rw [htq, hf.timerQ] at hmem
+      have hms : i ∈ s.timerQ := by
+        split at hmem
+        · exact hmem
+        · simp only [List.mem_append, List.mem_singleton] at hmem
+          rcases hmem with h | h
+          · exact h
+          · exact absurd h e
+      have hlt := hi.tq i hms
+      have hoi : s.objs[i]? = some s.objs[i] := List.getElem?_eq_getElem hlt
+      obtain ⟨o', ho', _, _, _, _, hs⟩ := hf.old i _ hoi e
+      rw [hof] at ho'; injection ho' with ho'; subst ho'
+      have hst' : (stopped rel i s.objs[i]).start ≠ none := by rw [← hs, (core_fields hcf).2.1]; exact hst
+      have hir : i ∉ rel := by intro h; simp [stopped, h] at hst'
+      have hss : (s.objs[i]).start ≠ none := by simpa [stopped, hir] using hst'
+      have hd := hi.armedq i hms _ hoi hss
+      rcases hf.sw i _ hd e hoi with h | h
+      · exact hir h
+      · exact hss h
+  refine { pq := hpq, pre := { db := hdb, du := ?_, ka := ?_, st := by rw [hsty, hf.style]; exact hi.pre.st, bd := ?_, dd := hdd },
+           tq := ?_, nd := ?_, once := ?_, beyond := ?_, live := ?_, deliv := ?_, relafter := ?_, delivu := ?_, armedq := harm }
   · intro x ox hx hox
     have := hdispg x hx; subst this
     obtain ⟨ofo, h1, h2⟩ := hback _ ox hox
@@ -1210,8 +1405,36 @@ theorem inv_poll (s : St) (hi : Inv s) : Inv (drain (pollTimers s)) := by
     intro d h; rcases hdisp with e | e
     · rw [← e]; exact h
     · rw [e] at h; cases h
-  refine { pq := hpq, pre := { db := hdb, du := ?_, ka := ?_, st := by rw [hsty, hpf.style]; exact hi.pre.st, bd := ?_ },
-           tq := ?_, nd := ?_, once := ?_, beyond := ?_, live := ?_, deliv := ?_, relafter := ?_, delivu := ?_ }
+  have hfired2 : ∀ j, Job.release j ∈ (pollTimers s).procQ → s.dispLast = some j := by
+    intro j hj
+    obtain ⟨h1, h2⟩ := hfired j hj
+    obtain ⟨oj, hoj, hstj, _⟩ := pollAct_two h2
+    exact hi.armedq j h1 oj hoj hstj
+  have hdd : ∀ x, (drain (pollTimers s)).dispLast = some x → (drain (pollTimers s)).decLast = some x := by
+    intro x hx
+    have hsx := hdispg x hx
+    have hsd := hi.pre.dd x hsx
+    refine drain_dec_keep (pollTimers s) x (by rw [hpf.dec]; exact hsd) ?_
+    intro hrel
+    have hlt : x < (pollTimers s).objs.length := by
+      rw [hpf.objs]; obtain ⟨ox, hox, _⟩ := hi.pre.db x hsx; exact get_lt hox
+    exact (hclr x hrel hlt).2 hx
+  have harm : ∀ i ∈ (drain (pollTimers s)).timerQ, ∀ o, (drain (pollTimers s)).objs[i]? = some o → o.start ≠ none →
+      (drain (pollTimers s)).dispLast = some i := by
+    intro i hmem og hog hst
+    obtain ⟨os, hos, hcs⟩ := hback i og hog
+    rw [htq] at hmem
+    obtain ⟨hms, hact⟩ := List.mem_filter.mp hmem
+    have hsd := hi.armedq i hms os hos (by rw [(core_fields hcs).2.1]; exact hst)
+    refine drain_disp_keep (pollTimers s) i os (by rw [hpf.disp]; exact hsd) (by rw [hpf.objs]; exact hos) ?_
+    intro j oj hj _
+    exfalso
+    have hji := hfired2 j hj
+    rw [hsd] at hji; injection hji with hji; subst hji
+    have := (hfired i hj).2
+    simp [this] at hact
+  refine { pq := hpq, pre := { db := hdb, du := ?_, ka := ?_, st := by rw [hsty, hpf.style]; exact hi.pre.st, bd := ?_, dd := hdd },
+           tq := ?_, nd := ?_, once := ?_, beyond := ?_, live := ?_, deliv := ?_, relafter := ?_, delivu := ?_, armedq := harm }
   · intro x ox hx hox
     obtain ⟨os, h1, h2⟩ := hback _ ox hox
     rw [← (core_fields h2).2.2.2.2]; exact hi.pre.du x os (hdispg x hx) h1
@@ -1320,8 +1543,8 @@ theorem drain_nil (s : St) (h : s.procQ = []) : drain s = s := by
 
 theorem inv_tick (s : St) (hi : Inv s) (d : Int) (hd : 0 ≤ d) : Inv { s with now := s.now + d } :=
   { pq := hi.pq,
-    pre := { db := hi.pre.db, du := hi.pre.du, ka := hi.pre.ka, st := hi.pre.st, bd := hi.pre.bd },
-    tq := hi.tq, nd := hi.nd, once := hi.once, beyond := hi.beyond,
+    pre := { db := hi.pre.db, du := hi.pre.du, ka := hi.pre.ka, st := hi.pre.st, bd := hi.pre.bd, dd := hi.pre.dd },
+    armedq := hi.armedq, tq := hi.tq, nd := hi.nd, once := hi.once, beyond := hi.beyond,
     live := by
       intro i o ho hu h0
       obtain ⟨hm, t, ht, hle, hp⟩ := hi.live i o ho hu h0
@@ -1331,7 +1554,8 @@ theorem inv_tick (s : St) (hi : Inv s) (d : Int) (hd : 0 ≤ d) : Inv { s with n
 theorem inv_init (d : Int) : Inv { duration := d } :=
   { pq := rfl,
     pre := { db := (by intro j h; cases h), du := (by intro x ox h; cases h), ka := (by intro d l od ol h; cases h),
-             st := rfl, bd := (by intro d h; cases h) },
+             st := rfl, bd := (by intro d h; cases h), dd := (by intro x h; cases h) },
+    armedq := (by intro i h; cases h),
     tq := (by intro i h; cases h), nd := List.nodup_nil,
     once := (by intro i o h; simp at h), beyond := (by intro i _; rfl),
     live := (by intro i o h; simp at h), deliv := (by intro i o h; simp at h), relafter := (by intro i k h; cases h), delivu := (by intro i k h; cases h) }
@@ -1454,5 +1678,194 @@ theorem run_duration (w : List Ev) : ∀ (s : St), Inv s → (∀ e ∈ w, e.ok)
     intro s hi hok
     show (run (step s e) w).duration = _
     rw [ih (step s e) (inv_step s hi e (hok e (by simp))) (fun e' h => hok e' (by simp [h])), step_duration s hi e]
+
+
+/-! ### while a key is held -/
+
+/-- an event word during which key `K` stays held: every full frame is a frame of `K`, and the time since the last
+    frame (full or ditto) stays below the padded timeout -/
+def HeldWord (dur : Int) (K : Nat) : Int → List Ev → Prop
+  | _, [] => True
+  | _, .frame k _ :: w => k = K ∧ HeldWord dur K 0 w
+  | _, .rep :: w => HeldWord dur K 0 w
+  | acc, .advance δ :: w => 0 ≤ δ ∧ 5 * (acc + δ) < 6 * dur ∧ HeldWord dur K (acc + δ) w
+  | acc, .tick δ :: w => 0 ≤ δ ∧ 5 * (acc + δ) < 6 * dur ∧ HeldWord dur K (acc + δ) w
+  | acc, .poll :: w => HeldWord dur K acc w
+
+structure HeldInv (s : St) (h K : Nat) (acc : Int) : Prop where
+  inv : Inv s
+  disp : s.dispLast = some h
+  obj : ∃ oh t0, s.objs[h]? = some oh ∧ oh.key = K ∧ oh.start = some t0 ∧ s.now - t0 ≤ acc ∧ oh.padded = true ∧ oh.proc = 0
+  cnt : relCount s.outs h = 0
+  acc0 : 0 ≤ acc
+  accd : 5 * acc < 6 * s.duration
+
+/-- after a frame event that delivers `cur` with key `K`: the output, and the held-state invariant -/
+theorem held_after (s f : St) (cur K : Nat) (rel : List Nat) (hi : Inv s) (hdur : 0 < s.duration) (hf : Facts s f cur rel)
+    (hkey : ∀ oc, f.objs[cur]? = some oc → oc.key = K) :
+    (drain f).outs = s.outs ++ rel.flatMap (fun l => jobOut f.objs (.release l)) ++ [.decoded cur K] ∧
+    HeldInv (drain f) cur K 0 := by
+  obtain ⟨hdbf, hnrf, hq⟩ := facts_drain s f cur rel hi hf
+  obtain ⟨hnow, hdur', _, _, _, hcore, _, _, houts, _, _⟩ := drain_spec f hdbf hnrf
+  obtain ⟨occ, hocc, hcs, hcp, hcpr, _, _⟩ := hf.curObj
+  have hig := inv_after s f cur rel hi hf
+  have hdisp : (drain f).dispLast = some cur := by
+    refine drain_disp_keep f cur occ hf.disp hocc ?_
+    intro l ol hl hol
+    rw [hq] at hl
+    have hlr : l ∈ rel := by
+      simp only [List.mem_append, List.mem_map, List.mem_singleton] at hl
+      rcases hl with ⟨a, ha, e⟩ | e
+      · injection e with e; subst e; exact ha
+      · cases e
+    exact hf.relkey l ol occ hlr hol hocc
+  refine ⟨?_, { inv := hig, disp := hdisp, obj := ?_, cnt := ?_, acc0 := Int.le_refl 0, accd := by rw [hdur', hf.duration]; omega }⟩
+  · rw [houts, hf.outs, hq, List.flatMap_append, ← List.append_assoc]
+    have h1 : List.flatMap (jobOut f.objs) (List.map Job.release rel) = rel.flatMap (fun l => jobOut f.objs (.release l)) := by
+      simp [List.flatMap_map]
+    have h2 : List.flatMap (jobOut f.objs) [Job.decoded cur] = [Out.decoded cur K] := by
+      simp [jobOut, hocc, hkey occ hocc]
+    rw [h1, h2]
+  · have hg := hcore.get cur
+    rw [hocc] at hg
+    cases hgc : (drain f).objs[cur]? with
+    | none => rw [hgc] at hg; simp at hg
+    | some og =>
+      rw [hgc] at hg; simp at hg
+      obtain ⟨ck, cs, cp, cpr, _⟩ := core_fields hg
+      exact ⟨og, s.now, rfl, by rw [ck]; exact hkey occ hocc, by rw [cs]; exact hcs, by rw [hnow, hf.now]; omega,
+        by rw [cp]; exact hcp, by rw [cpr]; exact hcpr⟩
+  · obtain ⟨ob, hob, _⟩ := hig.pre.db cur hdisp
+    have h1 := hig.once cur ob hob
+    rcases Nat.lt_or_ge (relCount (drain f).outs cur) 1 with h | h
+    · omega
+    · exact absurd hdisp ((h1.2 (by omega)).2.1)
+
+
+theorem heldInv_dur {s : St} {h K : Nat} {acc : Int} (hh : HeldInv s h K acc) : 0 < s.duration := by
+  have := hh.acc0; have := hh.accd; omega
+
+/-- a full frame of the held key: reported with the held object, which stays held -/
+theorem held_frame (s : St) (h K t : Nat) (acc : Int) (hh : HeldInv s h K acc) :
+    (step s (.frame K t)).outs = s.outs ++ [.decoded h K] ∧ HeldInv (step s (.frame K t)) h K 0 := by
+  obtain ⟨cur, rel, hf, hheld, hkey⟩ := frame_facts s K t hh.inv.pre
+  obtain ⟨oh, t0, hoh, hk, _⟩ := hh.obj
+  obtain ⟨e1, e2⟩ := hheld h oh hh.disp hoh hk
+  subst e1; subst e2
+  have := held_after s _ cur K [] hh.inv (heldInv_dur hh) hf hkey
+  simpa [step] using this
+
+/-- a ditto frame while the key is held: reported with the held object -/
+theorem held_rep (s : St) (h K : Nat) (acc : Int) (hh : HeldInv s h K acc) :
+    (step s .rep).outs = s.outs ++ [.decoded h K] ∧ HeldInv (step s .rep) h K 0 := by
+  obtain ⟨oh, t0, hoh, hk, _⟩ := hh.obj
+  rcases rep_eq s hh.inv.pre with e | ⟨x, ox, hx, hox, e⟩
+  · exfalso
+    -- the decoder holds the dispatcher's code: a ditto frame is never ignored
+    have hd := hh.inv.pre.dd h hh.disp
+    have : repeatFrame s 0 = restart s h := by
+      unfold repeatFrame
+      have hk' := hh.inv.pre.ka h h oh oh hd hh.disp hoh hoh
+      have had : adopt s h oh.key = s := by simp [adopt, getObj, hoh]
+      simp only [hh.disp, Option.bind_some, getObj, hoh, hd, had, Option.getD_some, restart]
+    rw [this] at e
+    have hf := restart_facts s hh.inv.pre h oh hh.disp hoh
+    have := hf.procQ
+    rw [e, hh.inv.pq] at this
+    simp at this
+  · rw [hh.disp] at hx; injection hx with hx; subst hx
+    rw [hoh] at hox; injection hox with hox; subst hox
+    have hf := restart_facts s hh.inv.pre h oh hh.disp hoh
+    have hkey : ∀ oc, (restart s h).objs[h]? = some oc → oc.key = K := by
+      intro oc hoc; rw [hf.oldcur oh oc hoh hoc]; exact hk
+    have := held_after s _ h K [] hh.inv (heldInv_dur hh) hf hkey
+    simpa [step, e] using this
+
+theorem held_tick (s : St) (h K : Nat) (acc δ : Int) (hh : HeldInv s h K acc) (hδ : 0 ≤ δ)
+    (hlt : 5 * (acc + δ) < 6 * s.duration) : HeldInv { s with now := s.now + δ } h K (acc + δ) := by
+  obtain ⟨oh, t0, hoh, hk, hst, hle, hp, hpr⟩ := hh.obj
+  exact { inv := inv_tick s hh.inv δ hδ, disp := hh.disp,
+          obj := ⟨oh, t0, hoh, hk, hst, (by simp only; omega), hp, hpr⟩,
+          cnt := hh.cnt, acc0 := (by have := hh.acc0; omega), accd := hlt }
+
+/-- a poll of the timer thread while the key is held and its timer has not run out: nothing fires -/
+theorem held_poll (s : St) (h K : Nat) (acc : Int) (hh : HeldInv s h K acc) :
+    (drain (pollTimers s)).outs = s.outs ∧ HeldInv (drain (pollTimers s)) h K acc := by
+  obtain ⟨oh, t0, hoh, hk, hst, hle, hp, hpr⟩ := hh.obj
+  obtain ⟨hpf, hptq, hppq⟩ := pollTimers_spec s
+  have hnofire : s.timerQ.filter (fun i => pollAct s i == 2) = [] := by
+    apply List.filter_eq_nil_iff.mpr
+    intro j hj hact
+    have h2 : pollAct s j = 2 := by simpa using hact
+    obtain ⟨oj, hoj, hstj, hexp⟩ := pollAct_two h2
+    have hd := hh.inv.armedq j hj oj hoj hstj
+    rw [hh.disp] at hd; injection hd with hd; subst hd
+    rw [hoh] at hoj; injection hoj with hoj; subst hoj
+    simp only [expired, hst, hp, hpr, if_true, decide_eq_true_eq] at hexp
+    have := hh.accd
+    omega
+  rw [hh.inv.pq, hnofire] at hppq
+  simp only [List.map_nil, List.append_nil] at hppq
+  have hdr : drain (pollTimers s) = pollTimers s := drain_nil _ hppq
+  have hig := inv_poll s hh.inv
+  rw [hdr] at hig ⊢
+  have hnew : HeldInv (pollTimers s) h K acc :=
+    { inv := hig, disp := (by rw [hpf.disp]; exact hh.disp),
+      obj := ⟨oh, t0, (by rw [hpf.objs]; exact hoh), hk, hst, (by rw [hpf.now]; exact hle), hp, hpr⟩,
+      cnt := (by rw [hpf.outs]; exact hh.cnt), acc0 := hh.acc0, accd := (by rw [hpf.duration]; exact hh.accd) }
+  exact ⟨hpf.outs, hnew⟩
+
+/-- one event of a held word -/
+theorem held_step (s : St) (h K : Nat) (acc : Int) (hh : HeldInv s h K acc) (e : Ev) (w : List Ev)
+    (hw : HeldWord s.duration K acc (e :: w)) :
+    ∃ acc', HeldInv (step s e) h K acc' ∧ HeldWord (step s e).duration K acc' w ∧
+      (step s e).duration = s.duration ∧
+      (match e with
+       | .frame _ _ => (step s e).outs = s.outs ++ [.decoded h K]
+       | .rep => (step s e).outs = s.outs ++ [.decoded h K]
+       | _ => (step s e).outs = s.outs) := by
+  have hdur := step_duration s hh.inv e
+  cases e with
+  | frame k t =>
+    obtain ⟨hk, hw'⟩ := hw
+    subst hk
+    obtain ⟨ho, hi'⟩ := held_frame s h k t acc hh
+    exact ⟨0, hi', by rw [hdur]; exact hw', hdur, ho⟩
+  | rep =>
+    obtain ⟨ho, hi'⟩ := held_rep s h K acc hh
+    exact ⟨0, hi', by rw [hdur]; exact hw, hdur, ho⟩
+  | advance δ =>
+    obtain ⟨h0, h1, hw'⟩ := hw
+    have ht := held_tick s h K acc δ hh h0 h1
+    obtain ⟨ho, hi'⟩ := held_poll _ h K _ ht
+    exact ⟨acc + δ, hi', by rw [hdur]; exact hw', hdur, ho⟩
+  | tick δ =>
+    obtain ⟨h0, h1, hw'⟩ := hw
+    exact ⟨acc + δ, held_tick s h K acc δ hh h0 h1, hw', rfl, rfl⟩
+  | poll =>
+    obtain ⟨ho, hi'⟩ := held_poll s h K acc hh
+    exact ⟨acc, hi', by rw [hdur]; exact hw, hdur, ho⟩
+
+/-- a whole held word, split anywhere -/
+theorem held_run (w1 : List Ev) : ∀ (s : St) (h K : Nat) (acc : Int) (w2 : List Ev), HeldInv s h K acc →
+    HeldWord s.duration K acc (w1 ++ w2) →
+    ∃ acc', HeldInv (run s w1) h K acc' ∧ HeldWord (run s w1).duration K acc' w2 := by
+  induction w1 with
+  | nil => intro s h K acc w2 hh hw; exact ⟨acc, hh, hw⟩
+  | cons e w1 ih =>
+    intro s h K acc w2 hh hw
+    obtain ⟨acc', hi', hw', _, _⟩ := held_step s h K acc hh e (w1 ++ w2) hw
+    exact ih (step s e) h K acc' w2 hi' hw'
+
+
+/-- a full frame of key `K` in ANY reachable state starts a held phase of the object it delivers -/
+theorem enter_held (s : St) (hi : Inv s) (hdur : 0 < s.duration) (K t : Nat) :
+    ∃ h, HeldInv (step s (.frame K t)) h K 0 ∧ ∃ pre, (step s (.frame K t)).outs = pre ++ [.decoded h K] := by
+  obtain ⟨cur, rel, hf, _, hkey⟩ := frame_facts s K t hi.pre
+  obtain ⟨ho, hh⟩ := held_after s _ cur K rel hi hdur hf hkey
+  exact ⟨cur, hh, _, ho⟩
+
+theorem run_append (s : St) (w1 w2 : List Ev) : run s (w1 ++ w2) = run (run s w1) w2 := by
+  simp [run, List.foldl_append]
 
 end IRModel.Timer
